@@ -631,7 +631,17 @@ def check_window(chk, tier):
     trees = [(["window", win["title"], window_items(win)], width) for win, width in cases]
     model = rc.model_render(trees)
     for (win, width), m in zip(cases, model):
-        i = rc.impl_render(build_window(win), width)
+        wobj = build_window(win)
+        if rng.random() < 0.5:
+            # the window was shown before (same content, the same or another width): what it shows now must not depend on
+            # that — blank separators "where requested and nothing else" also on the second draw
+            for _ in range(rng.choice([1, 1, 2])):
+                try:
+                    wobj.render(rng.choice([width, width, 80, 33, max(1, width - 3)]))
+                except Exception:      # noqa  (a refusal at the other width is not this draw's business)
+                    pass
+            chk.hist("window:drawn-before")
+        i = rc.impl_render(wobj, width)
         chk.count()
         chk.hist("window:items=%d" % len(window_items(win))); chk.hist("window:outcome=%s" % i[0])
         chk.hist("window:title=%s" % ("None" if win["title"] is None else ("empty" if not win["title"] else "text")))
